@@ -3,6 +3,7 @@ import os, json, codecs, collections, itertools, time, asyncio
 from lib import common
 common.repo_on_path()
 import pexpect
+from pexpect import fdpexpect, socket_pexpect
 import ptyprocess.ptyprocess as PP
 from drivers import session as S
 
@@ -25,7 +26,7 @@ def coerce(p_encoding, v):
 def run_case(case):
     """case: dict(transport, encoding, errors, logs, ops). -> dict of observables"""
     enc, errors = case['encoding'], case.get('errors', 'strict')
-    if case['transport'] == 'pty' and enc and enc.replace('_', '-').startswith(('utf-16', 'utf-32')):
+    if case['transport'] == 'pty' and enc and enc.replace('_', '-').startswith(('utf-16', 'utf-32', 'utf-8-sig')):
         case['transport'] = 'fd'      # spawn() encodes argv with the instance encoding: only ASCII-compatible ones can start a program
     ses = S.Session(case['transport'], enc, errors, logs=case.get('logs', ('logfile', 'logfile_read', 'logfile_send')))
     p = ses.p
@@ -341,6 +342,23 @@ def gen_sends(ctx, logs_variants):
         want, _ = expected_peer(case)
         case['expect_peer_len'] = len(want)
         cases.append(case)
+    # a multi-byte character cut by a read boundary while control characters and lines are sent in between: the read decoder's
+    # pending state must not leak into what is sent / logged as sent
+    for tr in ('pty', 'fd'):
+        for errors in ('strict', 'replace'):
+            ops = [('R', b'caf\xc3')] + ([('C', 'g'), ('E',)] if tr == 'pty' else []) + [('L', 'x'), ('R', b'\xa9!'), ('S', 'y')]
+            case = dict(transport=tr, encoding='utf-8', errors=errors, ops=ops, logs=logs_variants[-1])
+            want, _ = expected_peer(case)
+            case['expect_peer_len'] = len(want)
+            cases.append(case)
+    # stateful encoders (a BOM / shift state must be written once per stream, not once per call), on every transport
+    for tr in TRANSPORTS:
+        for enc in (['utf-16', 'utf-8-sig', 'utf-32'] if not ctx.quick() else ['utf-16', 'utf-8-sig']):
+            ops = [('S', 'ab'), ('L', 'c\u00e9'), ('W', ['x', 'y\u20ac']), ('S', ''), ('L', ''), ('S', 'z')]
+            case = dict(transport=tr, encoding=enc, errors='strict', ops=ops, logs=logs_variants[0])
+            want, _ = expected_peer(case)
+            case['expect_peer_len'] = len(want)
+            cases.append(case)
     # all byte values and a payload larger than the pipe / pty buffer, per transport
     for tr in TRANSPORTS:
         big = bytes(range(256)) * (40 if ctx.quick() else 1024)
@@ -402,6 +420,8 @@ def stage_interact_logging(ctx, stats):
             tty.setraw(m)
             p = pexpect.spawn('cat', echo=False, encoding=enc, timeout=5, use_poll=use_poll)
             p.logfile = rec
+            rec_s, rec_r = S.RecLog(), S.RecLog()
+            p.logfile_send, p.logfile_read = rec_s, rec_r
             p.STDIN_FILENO = s; p.STDOUT_FILENO = s
             result = {}
 
@@ -409,7 +429,7 @@ def stage_interact_logging(ctx, stats):
                 time.sleep(0.15)
                 os.write(m, b'hi\r')
                 time.sleep(0.25)
-                os.write(m, b'\x1d')
+                os.write(m, b'ab\x1dnever sent')        # the escape in the middle of one read: what follows it is neither sent nor logged
             th = threading.Thread(target=user); th.start()
             try:
                 p.interact()
@@ -433,11 +453,83 @@ def stage_interact_logging(ctx, stats):
                 msg = 'interact() logged %s in %s mode' % (sorted(set(type(w_).__name__ for w_ in writes)), 'bytes' if enc is None else 'unicode')
             else:
                 joined = (b'' if enc is None else '').join(writes)
+                sent = (b'' if enc is None else '').join(e[1] for e in rec_s.ev if e[0] == 'w')
+                read = (b'' if enc is None else '').join(e[1] for e in rec_r.ev if e[0] == 'w')
+                want_sent = b'hi\rab' if enc is None else 'hi\rab'
                 if (b'hi' if enc is None else 'hi') not in joined:
                     msg = 'interact() did not log the traffic: %r' % (writes[:6],)
+                elif sent != want_sent:
+                    msg = 'interact(): logfile_send got %r, the child was sent %r' % (sent, want_sent)
+                elif (read if enc is None else read.encode(enc)) != shown:
+                    msg = 'interact(): logfile_read got %r, the user saw %r' % (read, shown)
             if msg:
                 common.report(ctx, 'interact/logging/%s' % ('bytes' if enc is None else 'unicode'), msg, dict(encoding=enc, use_poll=use_poll, writes=[repr(w_) for w_ in writes[:8]]))
     stats['interact_sessions'] = n
+
+
+def stage_big_sends(ctx, stats):
+    """C08: payloads larger than the kernel buffers with a peer that starts reading late, on blocking and timeout-mode descriptors:
+    send() must return the number of bytes of its argument and the peer must receive exactly the arguments, concatenated"""
+    import socket, threading
+    size = (1 << 20) if ctx.quick() else (8 << 20)
+    for tr in ('socket', 'fd'):
+        for mode in ('blocking', 'timeout'):
+            a, b = socket.socketpair()
+            if mode == 'timeout':
+                a.settimeout(5.0)
+            try:
+                if tr == 'socket':
+                    p = socket_pexpect.SocketSpawn(a, timeout=5)
+                else:
+                    if mode == 'timeout':
+                        continue                      # fdspawn documents a blocking descriptor
+                    p = fdpexpect.fdspawn(a.fileno(), timeout=5)
+                got = bytearray()
+                started = threading.Event()
+
+                def reader():
+                    started.wait(2.0)
+                    time.sleep(0.05)                  # let the send buffer fill up first
+                    b.settimeout(3.0)
+                    try:
+                        while True:
+                            d = b.recv(1 << 20)
+                            if not d:
+                                break
+                            got.extend(d)
+                    except Exception:
+                        pass
+                th = threading.Thread(target=reader, daemon=True)
+                th.start()
+                payload = (bytes(range(256)) * (size // 256))
+                started.set()
+                rets = []
+                err = None
+                try:
+                    rets.append(p.send(b'head:'))
+                    rets.append(p.send(payload))
+                    rets.append(p.sendline(b'tail'))
+                except Exception as e:    # noqa
+                    err = '%s: %s' % (type(e).__name__, e)
+                a.shutdown(socket.SHUT_WR)
+                th.join(6.0)
+                want = b'head:' + payload + b'tail' + os.linesep.encode()
+                stats['big_sends'] = stats.get('big_sends', 0) + 1
+                if err:
+                    common.report(ctx, 'c08/%s/big/%s/exception' % (tr, mode), '%s (%s descriptor): sending %d bytes raised %s' % (tr, mode, len(payload), err),
+                                  dict(stage='stage_big_sends', transport=tr, mode=mode, size=len(payload)))
+                elif rets != [5, len(payload), 5] or bytes(got) != want:
+                    k = next((i for i, (x, y) in enumerate(zip(got, want)) if x != y), min(len(got), len(want)))
+                    common.report(ctx, 'c08/%s/big/%s/short-write' % (tr, mode),
+                                  '%s (%s descriptor): send returned %r for arguments of %r bytes; the peer received %d of %d bytes (first difference at %d)' % (
+                                      tr, mode, rets, [5, len(payload), 5], len(got), len(want), k),
+                                  dict(stage='stage_big_sends', transport=tr, mode=mode, size=len(payload)))
+            finally:
+                for s_ in (a, b):
+                    try:
+                        s_.close()
+                    except Exception:
+                        pass
 
 
 def run(ctx):
@@ -461,6 +553,8 @@ def run(ctx):
     except common.ModelUnavailable as e:
         ctx.broken.append('model driver unavailable: ' + str(e)[:300]); mouts = {}
     sigs = set()
+    if prop == 'C08':
+        stage_big_sends(ctx, stats)
     oracle = ORACLES[prop]
     for i, c in enumerate(cases):
         res = run_case(c)
